@@ -1,0 +1,22 @@
+// Copyright 2022-2026 Sauce Labs Inc., all rights reserved.
+//
+// This Source Code Form is subject to the terms of the Mozilla Public
+// License, v. 2.0. If a copy of the MPL was not distributed with this
+// file, You can obtain one at https://mozilla.org/MPL/2.0/.
+
+//go:build verif
+
+package martian
+
+import "time"
+
+// Verification hooks (build tag "verif" only). Nothing here is compiled into regular builds.
+
+// VerifSetBicopyGracefulTimeout sets the period after which a tunnel whose first copy direction has
+// finished is closed forcibly, and returns the previous value. It must be called while no tunnel is
+// running.
+func VerifSetBicopyGracefulTimeout(d time.Duration) time.Duration {
+	old := bicopyGracefulTimeout
+	bicopyGracefulTimeout = d
+	return old
+}
